@@ -26,3 +26,173 @@ Theorem C11_parallel_moves_terminates :
     indeg1 T eqb A -> parallel_moves T eqb (length (all_targets T A) + 2) A <> None.
 Proof. exact parallel_moves_terminates. Qed.
 Print Assumptions C11_parallel_moves_terminates.
+
+(* ======================================================================================== *)
+(* x86-64: the same statement about the INSTRUCTIONS, on the ISA semantics of Sem/X86Sem.v    *)
+(* ======================================================================================== *)
+From Coq Require Import ZArith NArith String FMapPositive Permutation Sorted.
+From SCC Require Import Lang.AxSyn Model.Backend Model.X86 Sem.X86Sem Proof.X86State Proof.X86Sel Proof.X86Exec
+     Proof.X86Mem Proof.X86ParMoves Proof.SubstGraph Proof.X86Subst.
+Local Open Scope Z_scope.
+
+(* (i) The code `parallel_moves_code x86_backend A` (x_mov / x_store_temporary / x_restore_temporary
+   chosen by x_contains_spill_edge), run as straight-line code from ANY ISA state with a valid spill
+   frame, for ANY assignment map A with in-degree <= 1 over variable temporaries (registers other
+   than rsp and rcx, spill slots other than the reserved slot 0): every target location holds the
+   initial value of its source, every other variable location is unchanged, and heap, output, flags,
+   rsp and the stack outside the spill area are unchanged (only rcx and spill slot 0 may change). *)
+Theorem C11_x86_parallel_moves_simultaneous :
+  forall (im : image) (A : amap xtemp) (code : list xcode) (s : xstate) (sp : Z),
+    indeg1 xtemp (teqb x86_backend) A -> nodup_targets xtemp (teqb x86_backend) A ->
+    (forall t, In t (map fst A) \/ In t (all_targets xtemp A) -> var_temp t) ->
+    parallel_moves_code x86_backend A = Ok code ->
+    frame_ok s sp ->
+    exists s', exec_straight im code s = Some s' /\
+      (forall a b, edge xtemp (teqb x86_backend) A a b -> lget s' sp b = lget s sp a) /\
+      (forall u, var_temp u -> (forall a, ~ edge xtemp (teqb x86_backend) A a u) -> lget s' sp u = lget s sp u) /\
+      frame_ok s' sp /\ same_frame s s' sp.
+Proof. exact x86_parallel_moves_ok. Qed.
+Print Assumptions C11_x86_parallel_moves_simultaneous.
+
+Theorem C11_x86_parallel_moves_total :
+  forall A : amap xtemp, indeg1 xtemp (teqb x86_backend) A -> exists code, parallel_moves_code x86_backend A = Ok code.
+Proof. exact x86_parallel_moves_total. Qed.
+Print Assumptions C11_x86_parallel_moves_total.
+
+(* the key fact about the model of axcut2x86_64::parallel_moves::contains_spill_edge: when it
+   answers false, no move of the root goes from a spill slot to a spill slot, so rcx (the staging
+   register of such moves) is free to hold the value saved for the cycle *)
+Theorem C11_x86_spill_edge_sound :
+  forall (k : xtemp) (cs : list (tree xtemp)),
+    x_contains_spill_edge (StartNode xtemp k cs) = false ->
+    Forall (fun i => match i with Mov _ d s => is_spill d && is_spill s = false | _ => True end)
+           (root_moves xtemp (StartNode xtemp k cs)).
+Proof. exact root_spill_free. Qed.
+Print Assumptions C11_x86_spill_edge_sound.
+
+(* (ii) Every Substitute the compiler emits meets the hypotheses of (i): for a context with pairwise
+   distinct ids and pairwise distinct new ids, the map built by `connections (transpose re ctx)` has
+   in-degree <= 1, duplicate-free target sets and strictly increasing keys (any back end whose
+   Temporary order is a strict total order and whose numbering is injective), and its edges are
+   exactly old variable -> the new variables it is assigned to, per temporary. *)
+Theorem C11_substitute_graph_indeg1 :
+  forall (Code Temp : Type) (B : backend Code Temp), backend_ok B ->
+  forall (ctx : ctx) (re : list (binding * ident)) (am : amap Temp),
+    NoDup (ids ctx) -> NoDup (new_ids re) ->
+    connections B (transpose re ctx) ctx (map fst re) = Ok am ->
+    indeg1 Temp (teqb B) am /\ nodup_targets Temp (teqb B) am /\
+    StronglySorted (fun a b => b_tcompare B a b = Datatypes.Lt) (map fst am) /\
+    (forall a, In a (map fst am) -> exists i bi n, nth_error ctx i = Some bi /\ (n = Snd \/ bchi bi <> Ext) /\ tpos B n i = Ok a).
+Proof. intros Code Temp B OK. exact (transpose_connections_indeg1 B OK). Qed.
+Print Assumptions C11_substitute_graph_indeg1.
+
+Theorem C11_substitute_graph_edges :
+  forall (Code Temp : Type) (B : backend Code Temp), backend_ok B ->
+  forall (ctx : ctx) (re : list (binding * ident)) (am : amap Temp),
+    NoDup (ids ctx) -> NoDup (new_ids re) ->
+    connections B (transpose re ctx) ctx (map fst re) = Ok am ->
+    forall a b, edge Temp (teqb B) am a b <->
+      exists i j bi pj n, nth_error ctx i = Some bi /\ nth_error re j = Some pj /\
+        idn (snd pj) = idn (bvar bi) /\ (n = Snd \/ bchi bi <> Ext) /\ tpos B n i = Ok a /\ tpos B n j = Ok b.
+Proof. intros Code Temp B OK. exact (connections_edges B OK). Qed.
+Print Assumptions C11_substitute_graph_edges.
+
+Theorem C11_x86_backend_ok : backend_ok x86_backend.
+Proof. exact x86_backend_ok. Qed.
+Print Assumptions C11_x86_backend_ok.
+
+(* (iii) Reference counts, generic part: `code_weakening_contraction` emits exactly one abstract
+   operation per object (non-Ext) variable of the context - erase for 0 targets, nothing for 1,
+   share (k-1) for k >= 2 - each variable once (a permutation of the object bindings), in the order
+   of binding_compare (the BTreeMap order), on the first temporary of the variable. *)
+Theorem C11_weakening_contraction_counts :
+  forall (Code Temp : Type) (B : backend Code Temp) (ctx : ctx) (re : list (binding * ident)) (lc : N) (code : list Code) (lc' : N),
+    NoDup (ids ctx) ->
+    code_weakening_contraction B (transpose re ctx) ctx lc = Ok (code, lc') ->
+    exists order : list (nat * binding),
+      Permutation (map snd order) (filter is_obj ctx) /\
+      StronglySorted (fun x y => binding_compare (snd x) (snd y) = Datatypes.Lt) order /\
+      (forall i b, In (i, b) order -> nth_error ctx i = Some b) /\
+      exists ops, Forall2 (fun ib o => exists t, tpos B Fst (fst ib) = Ok t /\ o = rc_op_for t (count_targets re (snd ib))) order ops /\
+                  (code, lc') = emit_rc B (List.concat ops) lc.
+Proof. intros Code Temp B. exact (weakening_contraction_counts B). Qed.
+Print Assumptions C11_weakening_contraction_counts.
+
+(* (iii) x86-64 meaning of the two operations, for a block pointer p in a register or a spill slot,
+   inside any image that contains the code with its own labels: null -> no effect; share n -> header
+   += n; erase -> header = 0: the block is pushed on the deferred-free list (header := FREE,
+   FREE := p), else header -= 1.  Registers other than rcx (and FREE for erase), the stack and the
+   output are unchanged. *)
+Theorem C11_x86_share_meaning :
+  forall im pc s sp t n lc p f,
+    let code := fst (x_share_block_n t n lc) in
+    code_at im pc code -> labels_at im pc code ->
+    frame_ok s sp -> loc_ok t -> t <> XR TEMP ->
+    lget s sp t = Some p -> (p = 0 \/ block_ok p) -> fits32 (Z.of_N n) = true ->
+    rget s FREE = Some f ->
+    exists s', exec_to im pc s (padd pc (List.length code)) s' /\
+               (heap s', f) = share_h p (Z.of_N n) (heap s, f) /\
+               (forall r, r <> TEMP -> rget s' r = rget s r) /\
+               stack s' = stack s /\ out s' = out s.
+Proof. exact x86_share_ok. Qed.
+Print Assumptions C11_x86_share_meaning.
+
+Theorem C11_x86_erase_meaning :
+  forall im pc s sp t lc p f,
+    let code := fst (x_erase_block t lc) in
+    code_at im pc code -> labels_at im pc code ->
+    frame_ok s sp -> loc_ok t -> t <> XR TEMP -> t <> XR FREE ->
+    lget s sp t = Some p -> (p = 0 \/ block_ok p) ->
+    rget s FREE = Some f ->
+    exists s' f', exec_to im pc s (padd pc (List.length code)) s' /\
+               rget s' FREE = Some f' /\
+               (heap s', f') = erase_h p (heap s, f) /\
+               (forall r, r <> TEMP -> r <> FREE -> rget s' r = rget s r) /\
+               stack s' = stack s /\ out s' = out s.
+Proof. exact x86_erase_ok. Qed.
+Print Assumptions C11_x86_erase_meaning.
+
+(* (iv) THE PROPERTY on x86-64.  For every explicit substitution `Substitute re (Call l args)` in a
+   context with pairwise distinct ids and pairwise distinct new ids - any assignment of old to new
+   variables, any mix of integer and object variables, any placement across registers and spill
+   slots (whatever temporary_from_position hands out) - whose code the model emits, embedded in any
+   program image with its own labels, from every ISA state with a valid spill frame in which FREE
+   is defined and every object variable holds null or an 8-aligned heap address:
+   control arrives at the final `jmp l_`, in a state where
+   - every new variable's temporaries hold what its source's held before (ONE simultaneous
+     assignment: all values are read from the initial state);
+   - (heap, FREE) is the result of applying, for each object variable exactly once, with k = its
+     number of targets: erase (k = 0: header 0 -> pushed on the deferred-free list, else header-1),
+     nothing (k = 1), header += k-1 (k >= 2) - to the block its first temporary pointed to; no
+     other heap word is written (count_h only ever adds header keys);
+   - nothing else changes: variable locations outside the new context, the HEAP register, rsp, the
+     output and the stack outside the spill area (rcx, the flags and spill slot 0 are scratch).
+   Remaining distance to the Rust code: the model is tied to it by the correspondence check, not
+   by proof; the same instruction-level statement is CHECKED (exhaustively for m,n <= 5, all kinds
+   and window offsets) on the instructions the Rust code emits, see Model/SubstGen.v. *)
+Theorem C11_x86_substitute_simultaneous :
+  forall im pc types ctx re l args lc code lc' s sp f,
+    NoDup (ids ctx) -> NoDup (new_ids re) ->
+    Z.of_nat (List.length re) <= 2147483647 ->
+    code_statement x86_backend types (Substitute re (Call l args)) ctx lc = Ok (code, lc') ->
+    code_at im pc code -> labels_at im pc code ->
+    frame_ok s sp -> rget s FREE = Some f ->
+    (forall i b t, nth_error ctx i = Some b -> is_obj b = true -> tpos x86_backend Fst i = Ok t ->
+       exists p, lget s sp t = Some p /\ (p = 0 \/ block_ok p)) ->
+    exists (s' : xstate) (f' : Z) (order : list (nat * binding)) (ptr : nat -> Z),
+      exec_to im pc s (padd pc (List.length code - 1)) s' /\
+      nth_error code (List.length code - 1) = Some (JMPL (show_ident l +++ "_")) /\
+      (forall i j bi pj n a b, nth_error ctx i = Some bi -> nth_error re j = Some pj -> idn (snd pj) = idn (bvar bi) ->
+         (n = Snd \/ bchi bi <> Ext) -> tpos x86_backend n i = Ok a -> tpos x86_backend n j = Ok b ->
+         lget s' sp b = lget s sp a) /\
+      Permutation (map snd order) (filter is_obj ctx) /\
+      (forall i b, In (i, b) order -> nth_error ctx i = Some b /\
+                                      exists t, tpos x86_backend Fst i = Ok t /\ lget s sp t = Some (ptr i)) /\
+      rget s' FREE = Some f' /\
+      (heap s', f') = fold_left (fun hf ib => count_h (ptr (fst ib)) (count_targets re (snd ib)) hf) order (heap s, f) /\
+      (forall u, var_temp u -> u <> XR FREE -> (forall j n, tpos x86_backend n j = Ok u -> (List.length re <= j)%nat) ->
+                 lget s' sp u = lget s sp u) /\
+      rget s' HEAP = rget s HEAP /\ frame_ok s' sp /\ out s' = out s /\
+      (forall k, (forall p, slot_ok p -> k <> key (slot_addr sp p)) -> PM.find k (stack s') = PM.find k (stack s)).
+Proof. exact x86_substitute_ok. Qed.
+Print Assumptions C11_x86_substitute_simultaneous.
